@@ -1245,8 +1245,8 @@ KNOWN_MATCHERS = {}
 
 def tier_config(tier):
     if tier == "thorough":
-        return {"runs": 200000, "chunk": 100, "determinism_plans": 60, "max_violations": 6,
-                "min_budget": 400, "wall_limit_s": 3 * 3600, "sweep_hashseeds": 32,
+        return {"runs": 150000, "chunk": 100, "determinism_plans": 60, "max_violations": 6,
+                "min_budget": 400, "wall_limit_s": 6 * 3600, "sweep_hashseeds": 32,
                 "sweep_orders": 8, "opts": {"shorthand": True}}
     return {"runs": 4000, "chunk": 25, "determinism_plans": 20, "max_violations": 4,
             "min_budget": 300, "wall_limit_s": 1500, "sweep_hashseeds": 4,
